@@ -32,22 +32,48 @@ static bool find_v(const expression_t& e, symbol_t& out)
 }
 static variable_t* var_named(std::list<variable_t>& vs, const char* n) { for (auto& x : vs) if (x.uid.get_name() == n) return &x; return nullptr; }
 
-extern "C" void harness_scopes()  /* vf: bounds=name_declared_at_any_subset_of_9_scope_levels(global_early/late,template_parameter|local,function_parameter|local,block,for-iteration,select,quantifier)_x_12_use_sites reach=end */
+extern "C" void harness_scopes()  /* vf: bounds=name_declared_at_any_subset_of_9_scope_levels(global_early/late,template_parameter|local,function_parameter|local,block,for-iteration,select,quantifier)_x_12_use_sites_x_3_quantifier_kinds_x_closed_quantifiers_in_declarations reach=end */
 {
+    int use = vf_pick("!use", NUSE);
+    // scopes visible at the use site, innermost first (the oracle's search order)
+    std::vector<int> vis;
     bool has[NLEV];
+#ifdef VF_TIER_THOROUGH
     for (int l = 0; l < NLEV; l++) has[l] = vf_pick((std::string("!has_") + LEVNAME[l]).c_str(), 2);
+#else
+    // quick tier: the levels that can be visible at the use site vary independently, all others are present or absent together
+    {
+        static const int VIS[NUSE][8] = {{G, -1}, {TL, TP, G, -1}, {IT, BL, FL, FP, TL, TP, G, -1}, {BL, FL, FP, TL, TP, G, -1}, {FL, FP, TL, TP, G, -1}, {FP, TL, TP, G, -1}, {SB, TL, TP, G, -1},
+                                         {QB, SB, TL, TP, G, -1}, {SB, TL, TP, G, -1}, {TL, TP, G, -1}, {G, -1}, {SB, TL, TP, G, -1}};
+        bool rel[NLEV] = {};
+        for (int k = 0; VIS[use][k] >= 0; k++) rel[VIS[use][k]] = true;
+        bool others = vf_pick("!other_levels_present", 2);
+        for (int l = 0; l < NLEV; l++) has[l] = rel[l] ? vf_pick((std::string("!has_") + LEVNAME[l]).c_str(), 2) : others;
+        if (has[TP] && has[TL]) { if (!rel[TL]) has[TL] = false; }
+        if (has[FP] && has[FL]) { if (!rel[FL]) has[FL] = false; }
+    }
+#endif
     bool g_late = vf_pick("!global_declared_after_first_use", 2);
     vf_assume(!(has[TP] && has[TL]) && !(has[FP] && has[FL]));   // same frame: a duplicate definition, not a scoping question
     vf_assume(has[G] || !g_late);
-    int use = vf_pick("!use", NUSE);
+    int qk = vf_pick("!quantifier", 3);   // forall, exists, sum
+    static const char* QN[] = {"forall", "exists", "sum"};
+    auto quant = [&](const std::string& body_bool, const std::string& body_int) {   // a boolean expression built from the chosen quantifier
+        std::string head = std::string(QN[qk]) + " (" + nm(has[QB], "qb") + " : " + brng(QB) + ") ";
+        return qk == 2 ? "(" + head + body_int + ") >= 0" : "(" + head + body_bool + ")";
+    };
+    bool decl_quant = vf_pick("!quantifier_in_declarations", 2);   // closed quantifiers in the global and template-level declarations before the use
+    vf_assume(decl_quant || use == U_QUANT || use == U_AFTER_QUANT || qk == 0);   // the quantifier kind only matters where a quantifier is written
     // ---- render
     std::string s;
     if (has[G] && !g_late) s += rng(G) + " v = 0;\n";
     s += "int w;\n";
+    if (decl_quant) s += "const bool gq = " + quant("true", "1") + ";\n";
     s += use == U_GINIT ? "int u = v;\n" : "int u_unused = 0;\n";
     if (has[G] && g_late) s += rng(G) + " v = 0;\n";
     s += "process P(" + rng(TP) + " " + nm(has[TP], "tp") + ") {\n";
     if (has[TL]) s += " " + rng(TL) + " v = 0;\n";
+    if (decl_quant) s += " const bool tq = " + quant("true", "1") + ";\n";
     if (use == U_TINIT) s += " int u = v;\n";
     s += " int f(" + rng(FP) + " " + nm(has[FP], "fp") + ") {\n";
     if (use == U_FUN_EARLY) s += "  int u = v;\n";
@@ -61,14 +87,13 @@ extern "C" void harness_scopes()  /* vf: bounds=name_declared_at_any_subset_of_9
     s += "  return 0;\n }\n";
     s += std::string(" state A") + (use == U_INV ? " { v >= 0 }" : "") + ", B;\n init A;\n trans A -> B { select " + nm(has[SB], "sb") + " : " + brng(SB) + ";";
     if (use == U_GUARD) s += " guard v >= 0;";
-    if (use == U_QUANT) s += " guard forall (" + nm(has[QB], "qb") + " : " + brng(QB) + ") v >= 0;";
-    if (use == U_AFTER_QUANT) s += " guard (forall (" + nm(has[QB], "qb") + " : " + brng(QB) + ") w >= 0) && v >= 0;";
+    if (use == U_QUANT) s += " guard " + quant("v >= 0", "v") + ";";
+    if (use == U_AFTER_QUANT) s += " guard " + quant("w >= 0", "w") + " && v >= 0;";
     if (use == U_UPDATE) s += " assign w = v;";
     s += " };\n}\nP0 = P(1);\n";
     s += use == U_SYSTEM ? "int u = v;\n" : "";
     s += "system P0;\n";
-    // ---- oracle: scopes visible at the use site, innermost first
-    std::vector<int> vis;
+    // ---- oracle
     switch (use) {
     case U_GINIT: if (!g_late) vis = {G}; break;
     case U_TINIT: case U_INV: vis = {TL, TP, G}; break;
